@@ -14,7 +14,7 @@
 #define MAXL 4
 /* two link members: list objects are configured with different node offsets (odd lists use n, even lists n2), so
  * an operation that moves contents between list objects has to carry the configuration along */
-struct el { int val; int id; struct cstl_dlist_node n; long pad; struct cstl_dlist_node n2; };
+struct el { int val; int id; int want; struct cstl_dlist_node n; long pad; struct cstl_dlist_node n2; };
 #define OFF_OF(j) ((j) % 2 ? offsetof(struct el, n) : offsetof(struct el, n2))
 static struct el pool[MAXN + 1];
 static int N, NL, PROBES = 1, MAXV;
@@ -46,6 +46,13 @@ static int cmp(const void *a, const void *b, void *p)
     return e_cmp3(((const struct el *)a)->val, ((const struct el *)b)->val);
 }
 
+/* find compares the key object's `want` with the element's `val`: a lookup by a field of the key object.  When the
+ * key object is itself a member of the list the comparator is not reflexive for it. */
+static int cmpw(const void *key, const void *e, void *p)
+{
+    e_check_priv(p);
+    return e_cmp3(((const struct el *)key)->want, ((const struct el *)e)->val);
+}
 static void drv_setup(int argc, char **argv)
 {
     int i; const char *v;
@@ -97,13 +104,23 @@ static void rescan(void)
     }
 }
 
-static int cb_count, cb_stop, cb_erase, cb_list;
+static int cb_count, cb_stop, cb_erase, cb_list, cb_nest, cb_rev, cb_quiet;
 static int visit_cb(void *e, void *p)
 {
     int id = id_of_el(e);
     e_check_priv(p);
+    if (cb_quiet) return 0;              /* the nested walk: not part of the recorded visit sequence */
     cb_count++;
     ev_add("%d", id);
+    if (cb_nest && id > 0) {
+        /* read-only calls on the list being walked: a lookup and a complete nested walk in the other direction */
+        struct el probe; int save = cb_count, sstop = cb_stop, snest = cb_nest;
+        memset(&probe, 0, sizeof probe); probe.want = pool[id].val;
+        if (id_of_el(cstl_dlist_find(&L[cb_list], &probe, cmpw, E_PRIV, CSTL_DLIST_FOREACH_DIR_FWD)) <= 0) bad = 1;
+        cb_stop = 0; cb_nest = 0; cb_quiet = 1;
+        cstl_dlist_foreach(&L[cb_list], visit_cb, E_PRIV, cb_rev ? CSTL_DLIST_FOREACH_DIR_FWD : CSTL_DLIST_FOREACH_DIR_REV);
+        cb_quiet = 0; cb_count = save; cb_stop = sstop; cb_nest = snest;
+    }
     if (cb_erase && id > 0) {
         cstl_dlist_erase(&L[cb_list], e);
         memset(&pool[id].n, 0xA5, sizeof pool[id].n); memset(&pool[id].n2, 0xA5, sizeof pool[id].n2);
@@ -133,15 +150,18 @@ static void drv_apply(const vop_t *op, jb_t *res)
     case 8: cstl_dlist_concat(&L[a[0]], &L[a[1]]); jb_puts(res, ",\"ret\":0"); break;
     case 9: cstl_dlist_swap(&L[a[0]], &L[a[1]]); jb_puts(res, ",\"ret\":0"); break;
     case 10: {
-        struct el probe; void *r;
-        memset(&probe, 0, sizeof probe); probe.val = a[1];
-        r = cstl_dlist_find(&L[a[0]], &probe, cmp, E_PRIV, a[2] ? CSTL_DLIST_FOREACH_DIR_REV : CSTL_DLIST_FOREACH_DIR_FWD);
+        /* a[3] = 0: the key is a separate object; a[3] = m: the key is member m of the pool (possibly of this list) */
+        struct el probe, *key = &probe; void *r;
+        memset(&probe, 0, sizeof probe);
+        if (a[3] > 0) key = &pool[a[3]];
+        key->want = a[1];
+        r = cstl_dlist_find(&L[a[0]], key, cmpw, E_PRIV, a[2] ? CSTL_DLIST_FOREACH_DIR_REV : CSTL_DLIST_FOREACH_DIR_FWD);
         jb_printf(res, ",\"ret\":%d", id_of_el(r));
         break;
     }
     case 11: {
         int r;
-        cb_count = 0; cb_stop = a[2]; cb_erase = a[3]; cb_list = a[0];
+        cb_count = 0; cb_stop = a[2]; cb_erase = a[3]; cb_list = a[0]; cb_nest = a[4]; cb_rev = a[1]; cb_quiet = 0;
         r = cstl_dlist_foreach(&L[a[0]], visit_cb, E_PRIV, a[1] ? CSTL_DLIST_FOREACH_DIR_REV : CSTL_DLIST_FOREACH_DIR_FWD);
         jb_printf(res, ",\"ret\":%d", r);
         break;
@@ -168,8 +188,8 @@ static void drv_opjson(const vop_t *op, jb_t *b)
     case 7: jb_printf(b, "\"op\":\"sort\",\"l\":%d", a[0]); break;
     case 8: jb_printf(b, "\"op\":\"concat\",\"d\":%d,\"src\":%d", a[0], a[1]); break;
     case 9: jb_printf(b, "\"op\":\"swap\",\"a\":%d,\"b\":%d", a[0], a[1]); break;
-    case 10: jb_printf(b, "\"op\":\"find\",\"l\":%d,\"v\":%d,\"rev\":%s", a[0], a[1], a[2] ? "true" : "false"); break;
-    case 11: jb_printf(b, "\"op\":\"foreach\",\"l\":%d,\"rev\":%s,\"stop\":%d,\"er\":%s", a[0], a[1] ? "true" : "false", a[2], a[3] ? "true" : "false"); break;
+    case 10: jb_printf(b, "\"op\":\"find\",\"l\":%d,\"v\":%d,\"rev\":%s,\"key\":%d", a[0], a[1], a[2] ? "true" : "false", a[3]); break;
+    case 11: jb_printf(b, "\"op\":\"foreach\",\"l\":%d,\"rev\":%s,\"stop\":%d,\"er\":%s,\"nest\":%s", a[0], a[1] ? "true" : "false", a[2], a[3] ? "true" : "false", a[4] ? "true" : "false"); break;
     case 12: jb_printf(b, "\"op\":\"clear\",\"l\":%d", a[0]); break;
     case 13: jb_printf(b, "\"op\":\"peek\",\"l\":%d", a[0]); break;
     default: jb_printf(b, "\"op\":\"?%d\"", op->k);
@@ -216,10 +236,13 @@ static int drv_enum(vop_t *ops, int max)
         for (m = l; m <= NL; m++) ADD(9, l, m, 0, 0);      /* m == l: a list swapped with itself */
         for (rv = 0; rv < 2; rv++) for (st = 0; st <= slen[l]; st++) {
             ADD(11, l, rv, st, 1);
-            if (PROBES) ADD(11, l, rv, st, 0);
+            if (PROBES) { vop_t o_ = { 11, { l, rv, st, 0, 1 } }; ADD(11, l, rv, st, 0); ops[no++] = o_; }
         }
         if (PROBES) {
-            for (e = 0; e <= MAXV; e++) for (rv = 0; rv < 2; rv++) ADD(10, l, e, rv, 0);
+            for (e = 0; e <= MAXV; e++) for (rv = 0; rv < 2; rv++) {
+                ADD(10, l, e, rv, 0);
+                for (i = 0; i < slen[l]; i++) ADD(10, l, e, rv, seqs[l][i]);       /* the key object is a member of the list */
+            }
             ADD(13, l, 0, 0, 0);
         }
     }
@@ -242,8 +265,8 @@ static int drv_random(unsigned long (*rnd)(void), vop_t *op)
     else if (r < 74) { op->k = 7; op->a[0] = l; }
     else if (r < 79 && m != l && L[m].off == L[l].off) { op->k = 8; op->a[0] = l; op->a[1] = m; }
     else if (r < 84 ) { op->k = 9; op->a[0] = l < m ? l : m; op->a[1] = l < m ? m : l; }
-    else if (r < 89) { op->k = 10; op->a[0] = l; op->a[1] = (int)(rnd() % (unsigned)(MAXV + 1)); op->a[2] = (int)(rnd() & 1); }
-    else if (r < 95) { op->k = 11; op->a[0] = l; op->a[1] = (int)(rnd() & 1); op->a[2] = (rnd() & 1) ? 0 : (int)(rnd() % (unsigned)(slen[l] + 1)); op->a[3] = (rnd() % 4 == 0); }
+    else if (r < 89) { op->k = 10; op->a[0] = l; op->a[1] = (int)(rnd() % (unsigned)(MAXV + 1)); op->a[2] = (int)(rnd() & 1); op->a[3] = (slen[l] && (rnd() & 1)) ? seqs[l][rnd() % (unsigned)slen[l]] : 0; }
+    else if (r < 95) { op->k = 11; op->a[0] = l; op->a[1] = (int)(rnd() & 1); op->a[2] = (rnd() & 1) ? 0 : (int)(rnd() % (unsigned)(slen[l] + 1)); op->a[3] = (rnd() % 4 == 0); op->a[4] = !op->a[3] && (rnd() % 3 == 0); }
     else if (r < 97) { op->k = 12; op->a[0] = l; }
     else { op->k = 13; op->a[0] = l; }
     return 1;
